@@ -46,16 +46,51 @@ struct P {
     /// (action, scheduler steps to run afterwards; 0 = until quiescence)
     steps: Vec<(Act, u16)>,
     link: LinkCfg,
+    /// fault kind `cancel_task`: creations of a handle of this kind that are dropped at their n-th await
+    /// point (and, if they got that far, dropped right after completion); they must leave nothing behind
+    #[serde(default)]
+    abandoned: Vec<(HKind, u32)>,
 }
 
 type Handle = Box<dyn Any + Send>;
+
+async fn make_handle(conn: &zbus::Connection, k: HKind) -> zbus::Result<Handle> {
+    Ok(match k {
+        HKind::Clone => Box::new(conn.clone()),
+        HKind::StreamAll => Box::new(MessageStream::from(conn)),
+        HKind::StreamRule => {
+            let rule = MatchRule::builder().msg_type(zbus::message::Type::Signal).member("Whatever")?.build();
+            Box::new(MessageStream::for_match_rule(rule, conn, None).await?)
+        }
+        HKind::Proxy | HKind::ProxyWithCacheTask | HKind::SignalStream => {
+            let px: zbus::Proxy<'static> = zbus::proxy::Builder::new(conn)
+                .destination(":1.77")?
+                .path("/peer")?
+                .interface("org.peer.I")?
+                .cache_properties(if k == HKind::ProxyWithCacheTask { zbus::proxy::CacheProperties::Lazily } else { zbus::proxy::CacheProperties::No })
+                .build()
+                .await?;
+            match k {
+                HKind::SignalStream => Box::new(px.receive_signal("Sig").await?),
+                HKind::ProxyWithCacheTask => {
+                    // starts the caching task (GetAll goes unanswered: the task stays pending)
+                    let _ = px.cached_property::<u32>("P");
+                    let _stream = px.receive_property_changed::<u32>("P").await;
+                    Box::new(px)
+                }
+                _ => Box::new(px),
+            }
+        }
+        HKind::InterfaceRef => Box::new(conn.object_server().interface::<_, A>("/a").await?),
+    })
+}
 
 impl Scenario for C39Scn {
     fn id(&self) -> &'static str {
         "C39"
     }
     fn rule(&self) -> &'static str {
-        "side A (real connection with an object server whose handlers sleep on the simulated clock) holds 1..7 handles: connection clones, unfiltered and rule streams, proxies (with and without a running property-cache task), a proxy signal stream, an InterfaceRef; the raw peer sends 0..3 calls up front; the director drops the handles in a seeded order (all of them, or all but one), optionally calling graceful_shutdown() on one clone, running a seeded number of scheduler steps between actions; oracle: the peer observes EOF by quiescence iff every handle is gone, never before the last one went, every handler that started got its reply on the wire, graceful_shutdown completes iff everything else is gone and writes nothing afterwards; non-trivial = at least three handles of two kinds, or a handler in flight when the last handle went"
+        "side A (real connection with an object server whose handlers sleep on the simulated clock) holds 1..7 handles: connection clones, unfiltered and rule streams, proxies (with and without a running property-cache task), a proxy signal stream, an InterfaceRef; in a third of the runs 1..3 further creations of such handles are cancelled at one of their first await points (fault kind cancel_task; on a p2p connection these creations seldom suspend, the fired counter says how often one was really cut) and must leave nothing behind that keeps the connection alive; the raw peer sends 0..3 calls up front; the director drops the handles in a seeded order (all of them, or all but one), optionally calling graceful_shutdown() on one clone, running a seeded number of scheduler steps between actions; oracle: the peer observes EOF by quiescence iff every handle is gone, never before the last one went, every handler that started got its reply on the wire, graceful_shutdown completes iff everything else is gone and writes nothing afterwards; non-trivial = at least three handles of two kinds, or a handler in flight when the last handle went"
     }
     fn runs(&self, tier: Tier) -> u64 {
         match tier {
@@ -100,7 +135,12 @@ impl Scenario for C39Scn {
             })
             .collect();
         let sched = SchedCfg::generate(rng, &["socket reader", "obj_server_task", "method dispatcher"]);
-        (sched, j(&P { handles, calls, steps, link: gen_read_cfg(rng) }))
+        let abandoned = if rng.chance(1, 3) {
+            (0..rng.range(1, 3)).map(|_| (*rng.pick(&[HKind::StreamRule, HKind::Proxy, HKind::ProxyWithCacheTask, HKind::SignalStream, HKind::SignalStream, HKind::InterfaceRef]), rng.below(6) as u32)).collect()
+        } else {
+            vec![]
+        };
+        (sched, j(&P { handles, calls, steps, link: gen_read_cfg(rng), abandoned }))
     }
 
     fn shrink(&self, body: &Value) -> Vec<Value> {
@@ -109,6 +149,11 @@ impl Scenario for C39Scn {
         for c in drop_candidates(&p.calls) {
             let mut q = p.clone();
             q.calls = c;
+            out.push(j(&q));
+        }
+        for c in drop_candidates(&p.abandoned) {
+            let mut q = p.clone();
+            q.abandoned = c;
             out.push(j(&q));
         }
         // remove the highest handle together with its step
@@ -137,41 +182,22 @@ impl Scenario for C39Scn {
         let slots: Shared<Vec<Option<Handle>>> = shared(vec![]);
         let failed = shared(None::<String>);
 
-        let (s2, f2, l2, ww, kinds) = (slots.clone(), failed.clone(), log.clone(), w.clone(), p.handles.clone());
+        let (s2, f2, l2, ww, kinds, abandoned) = (slots.clone(), failed.clone(), log.clone(), w.clone(), p.handles.clone(), p.abandoned.clone());
         let setup = w.spawn("setup", async move {
             let r: zbus::Result<()> = async {
                 let conn = zbus::connection::Builder::authenticated_socket(sock, GUID)?.p2p().internal_executor(false).serve_at("/a", A::new(&l2, &ww, 0))?.build().await?;
                 let mut v: Vec<Option<Handle>> = vec![];
                 for k in &kinds[1..] {
-                    let h: Handle = match k {
-                        HKind::Clone => Box::new(conn.clone()),
-                        HKind::StreamAll => Box::new(MessageStream::from(&conn)),
-                        HKind::StreamRule => {
-                            let rule = MatchRule::builder().msg_type(zbus::message::Type::Signal).member("Whatever")?.build();
-                            Box::new(MessageStream::for_match_rule(rule, &conn, None).await?)
-                        }
-                        HKind::Proxy | HKind::ProxyWithCacheTask | HKind::SignalStream => {
-                            let px: zbus::Proxy<'static> = zbus::proxy::Builder::new(&conn)
-                                .destination(":1.77")?
-                                .path("/peer")?
-                                .interface("org.peer.I")?
-                                .cache_properties(if *k == HKind::ProxyWithCacheTask { zbus::proxy::CacheProperties::Lazily } else { zbus::proxy::CacheProperties::No })
-                                .build()
-                                .await?;
-                            match k {
-                                HKind::SignalStream => Box::new(px.receive_signal("Sig").await?),
-                                HKind::ProxyWithCacheTask => {
-                                    // starts the caching task (GetAll goes unanswered: the task stays pending)
-                                    let _ = px.cached_property::<u32>("P");
-                                    let _stream = px.receive_property_changed::<u32>("P").await;
-                                    Box::new(px)
-                                }
-                                _ => Box::new(px),
-                            }
-                        }
-                        HKind::InterfaceRef => Box::new(conn.object_server().interface::<_, A>("/a").await?),
-                    };
+                    let h: Handle = make_handle(&conn, *k).await?;
                     v.push(Some(h));
+                }
+                for (k, n) in &abandoned {
+                    let c2 = conn.clone();
+                    let k = *k;
+                    cancel_after(&ww, Some(*n), async move {
+                        let _ = make_handle(&c2, k).await;
+                    })
+                    .await;
                 }
                 v.insert(0, Some(Box::new(conn)));
                 *s2.lock().unwrap() = v;
